@@ -396,7 +396,11 @@ ASSUMPTIONS = [
     "(or after reset), `last` the final byte of a packet shorter than max_packet_size. A byte is lost iff no buffer slot is free in "
     "the cycle it reaches the buffer (one byte behind the wire); slots in use = undelivered entries + stored bytes of the open "
     "packet + 1 if an entry was delivered in the previous cycle. PING: ACK iff max_packet_size slots are free",
-    "the output stream is compared while stream.valid is high (payload/first/last are don't-care otherwise)",
+    "the output stream is compared while stream.valid is high (payload/first/last are don't-care otherwise; the targets expose "
+    "them masked by stream.valid through a wrapper in props/C13.py)",
+    "the specification oracle (cmon) keeps its state in a bounded encoding and stops judging a trace at the first cycle that "
+    "breaks the environment assumption or at any packet, addressed or not, longer than max_packet_size bytes; correspondence "
+    "(model vs simulator) has no such limits except that rx_complete and rx_invalid are never generated for the same packet",
     "lock-step tie configurations (max_packet_size, buffer_size): (1,1) with an OUT-token-for-this-endpoint alphabet (quick); (1,1) and "
     "(1,2) (thorough; (1,1) also with tokens for another endpoint); explicit input alphabets (see obligation_list); larger "
     "configurations exceed the reachability budget (29733 product states at (1,2) with both token kinds) and are covered by "
